@@ -1384,6 +1384,17 @@ def _run(ctx, batch):
         zr = {"c": [c01.W(0, 300, g="pre"), c01.W(0, 900, True, g="hs")], "s": [c01.W(0, 1500, True, g=("rx", 0, 1))]}
         for nm, cfg in (("zero_rtt", {"tickets": "obtain"}), ("zero_rtt_v2", {"tickets": "obtain", "version": c01.V2})):
             scen["resume/%s" % nm] = ({"ops": zr, "cfg": cfg}, not quick or nm == "zero_rtt")
+        # pacing: a bulk transfer (every datagram delayed / dropped once => the congestion window moves on ACKs
+        # that carry no RTT sample) and a second burst after an idle period (CUBIC resets its window) - what
+        # the logger reads must not feed back into when packets leave
+        bulk = {"c": [c01.W(0, 30000, True)]}
+        idle2 = {"c": [c01.W(0, 6000), c01.W(0, 6000, True, g=("t", 3.0))], "s": [c01.W(1, 6000, True, g=("rx", 0, 6001))]}
+        for nm, ops, cfg, dev in (("bulk_reno", bulk, {"cc": "reno"}, ("delay", "drop")),
+                                  ("bulk_cubic_v2", bulk, {"cc": "cubic", "version": c01.V2}, ("delay",)),
+                                  ("idle_then_burst_cubic", idle2, {"cc": "cubic"}, ("delay", "drop")),
+                                  ("idle_then_burst_reno", idle2, {"cc": "reno"}, ("delay",))):
+            scen["pacing/%s" % nm] = ({"ops": ops, "cfg": cfg, "dev": dev, "max_steps": 900},
+                                      not quick or nm in ("bulk_reno", "idle_then_burst_cubic"))
         items = [(sid, sc, None if full else [[]]) for sid, (sc, full) in scen.items()]
         results = batch.get("a", task_a, items)
         if results is None:
